@@ -16,6 +16,11 @@ import (
 	"unsafe"
 )
 
+// UntilSync, as a slice, means: run until the next synchronisation operation of
+// the library (lock, unlock, pool get/put, map access, channel operation, go
+// statement) and yield right after it.
+const UntilSync = int64(-1)
+
 // Kinds a client reports to the scheduler.
 const (
 	KPreempt  = 1 // slice used up inside an operation
@@ -37,6 +42,9 @@ var (
 	countdown int64 // points until the running client must yield; <=0 = never
 	baton     bool
 	cur       int
+	syncYield bool    // yield at the next synchronisation operation
+	syncRec   bool    // record at which step counts synchronisation operations happen
+	syncLog   []int64 // ... for the current operation
 
 	schedR, schedW int
 	taskR, taskW   [MaxClients]int
@@ -69,6 +77,38 @@ func Point() {
 			Yield(KPreempt)
 		}
 	}
+}
+
+// SyncPoint is what the sync shims call around every synchronisation
+// operation: an ordinary point, a recording site for the solo references, and
+// the place where a client that was told to run "until the next
+// synchronisation operation" gives the baton back.
+//
+//go:norace
+func SyncPoint() {
+	Point()
+	if syncRec && len(syncLog) < 400 {
+		syncLog = append(syncLog, opPts)
+	}
+	if syncYield && baton {
+		syncYield = false
+		Yield(KPreempt)
+	}
+}
+
+// RecordSync switches the recording of synchronisation steps on or off.
+//
+//go:norace
+func RecordSync(on bool) { syncRec = on }
+
+// TakeSync returns the steps of the current operation at which
+// synchronisation operations happened, and clears the list.
+//
+//go:norace
+func TakeSync() []int64 {
+	out := append([]int64(nil), syncLog...)
+	syncLog = syncLog[:0]
+	return out
 }
 
 //go:norace
@@ -273,7 +313,16 @@ func ClientStart(id int) {
 	cur = id
 	opPts = 0
 	limit = 0
-	countdown = int64(v)
+	setSlice(int64(v))
+}
+
+//go:norace
+func setSlice(v int64) {
+	if v == UntilSync {
+		countdown, syncYield = 0, true
+		return
+	}
+	countdown, syncYield = v, false
 }
 
 // Yield hands the baton back to the scheduler and (except for KTaskDone)
@@ -287,7 +336,7 @@ func Yield(kind uint64) {
 	}
 	id := cur
 	savedPts, savedLimit := opPts, limit
-	countdown = 0
+	countdown, syncYield = 0, false
 	rawWrite(schedW, uint64(id)<<8|kind)
 	if kind == KTaskDone {
 		return
@@ -295,7 +344,7 @@ func Yield(kind uint64) {
 	v := rawRead(taskR[id])
 	cur = id
 	opPts, limit = savedPts, savedLimit
-	countdown = int64(v)
+	setSlice(int64(v))
 }
 
 // Blocked is called by the sync shims while spinning on a lock.
@@ -340,7 +389,7 @@ func WaitSend(ch interface{}) {
 	if v.Cap() == 0 {
 		fatal("zzsimrt: the library uses an unbuffered channel; the simulator must be extended before it can judge this tree")
 	}
-	Point()
+	SyncPoint()
 	for v.Len() == v.Cap() {
 		Blocked()
 	}
@@ -355,7 +404,7 @@ func WaitRecv(ch interface{}) {
 	if v.Cap() == 0 {
 		fatal("zzsimrt: the library uses an unbuffered channel; the simulator must be extended before it can judge this tree")
 	}
-	Point()
+	SyncPoint()
 	for v.Len() == 0 {
 		Blocked()
 	}
@@ -366,7 +415,7 @@ func WaitRecv(ch interface{}) {
 //
 //go:norace
 func Grant(id int, slice int64) (who int, kind uint64) {
-	if slice < 0 {
+	if slice < 0 && slice != UntilSync {
 		slice = 0
 	}
 	rawWrite(taskW[id], uint64(slice))
